@@ -2,5 +2,5 @@
 # run every claimed property's quick check (writes evidence/<id>.json); summary at the end
 cd /verif
 for p in $(python3 -c "import json;print(' '.join(c['property_id'] for c in json.load(open('MANIFEST.json'))['checks']))"); do
-  ./check $p --tier quick > /tmp/p1/all_$p.log 2>&1; echo "$p exit=$?"
+  ./check $p --tier quick "$@" > /tmp/p1/all_$p.log 2>&1; echo "$p exit=$?"
 done
